@@ -24,6 +24,7 @@ type Clause struct {
 	Loop     int
 	CallName string
 	CallOrd  int
+	Aux      Expr // monitor clauses: the mutex expression
 	After    bool // assert evaluated after the call (with results bound)
 	Def      bool // definitional ensures (assumed at call sites only)
 }
@@ -54,6 +55,7 @@ type FuncContract struct {
 	SameAs   string // paramfunc: the function value is the function with this key; its contract (minus preconditions over its own free variables) is used
 	Grows    map[string]bool // rely locations that only grow (boolean ghost sets): old members stay members
 	Invokes  string // name of a func-typed parameter this function calls exactly once (its contract is applied at the call)
+	Monitors []*Clause // monitor invariants: `monitor <mutex expr>: invariant e` (CallName = source of the mutex expression, Aux = its Expr)
 	ChanInvs []*Clause // channel invariants: `chan <local>: invariant <expr over elem>` (CallName = the channel variable)
 }
 
@@ -102,6 +104,7 @@ func newContracts() *Contracts {
 var reHeader = regexp.MustCompile(`^(func|extern|iface|field|paramfunc)\s+(.+?)\(([^)]*)\)\s*(?:\(([^)]*)\))?\s*$`)
 var reTag = regexp.MustCompile(`^\[([A-Za-z0-9_,]*)(?::([^\]]+))?\]\s*`)
 var reLoop = regexp.MustCompile(`^loop\s+(\d+)\s*:\s*invariant\s+(.*)$`)
+var reMonitor = regexp.MustCompile(`^monitor\s+([A-Za-z0-9_.]+)\s*:\s*invariant\s+(.*)$`)
 var reChan = regexp.MustCompile(`^chan\s+([A-Za-z0-9_]+)\s*:\s*invariant\s+(.*)$`)
 var reCall = regexp.MustCompile(`^call\s+([A-Za-z0-9_.$]+)#(\d+)\s*:\s*(assert|after)\s+(.*)$`)
 
@@ -333,6 +336,32 @@ func (cs *Contracts) parseLine(cur **FuncContract, t, path string, ln int, pkgPa
 			return errf("%v", err)
 		}
 		(*cur).Loops[k] = append((*cur).Loops[k], &Clause{Kind: "invariant", Prop: tagProp, Label: tagLabel, Src: rest, E: e, Loop: k, File: path, Line: ln})
+	case "monitor":
+		// monitor <mutex>: invariant e: e holds whenever the mutex is free; it is assumed right after this function
+		// acquires the mutex (Lock / RLock) and is an obligation right before it releases the write lock
+		if *cur == nil {
+			return errf("monitor outside function contract")
+		}
+		m := reMonitor.FindStringSubmatch(t)
+		if m == nil {
+			return errf("bad monitor clause")
+		}
+		me, err := parseExpr(m[1])
+		if err != nil {
+			return errf("%v", err)
+		}
+		rest = m[2]
+		takeTag()
+		e, err := parseExpr(rest)
+		if err != nil {
+			return errf("%v", err)
+		}
+		(*cur).Monitors = append((*cur).Monitors, &Clause{Kind: "monitor", Prop: tagProp, Label: tagLabel, Src: rest, E: e, CallName: m[1], Aux: me, File: path, Line: ln})
+		if tagProp != "" {
+			for _, p := range strings.Split(tagProp, ",") {
+				(*cur).Props[p] = true
+			}
+		}
 	case "chan":
 		// chan <local>: invariant <expr over elem>: every value sent on the channel held by that local (by this function
 		// and by the closures that capture it) satisfies the invariant; every value received from it may assume it
